@@ -269,6 +269,7 @@ func init() {
 			[]string{"W:Incarnation", "W:Meta", "W:Addr", "W:Port", "BCAST", "TIMERDEL"}, []string{vOK, vS0, vOrd, vSelf, vLeft, aAddrEq, aPortCmp}, func(g getf) bool {
 				return aliveFound(g) && !isT(g, vSelf) && addrSame(g) && g(vOrd) == "GT"
 			})
+		checkAliveVersions(c, "C01")
 		c.Rule("alive claim: the update is all-or-nothing (incarnation, metadata, address, port written together with the re-gossip)")
 		for _, ex := range a.x.Exits {
 			set := []string{"W:Incarnation", "W:Meta", "W:Addr", "W:Port", "BCAST", "TIMERDEL"}
@@ -357,4 +358,32 @@ func (c *Ctx) existsRow(hm *handlerModel, key, rule string, cls []string, vars [
 		delete(asg, vars[i])
 	}
 	rec(0, map[string]string{})
+}
+
+// checkAliveVersions: the protocol / delegate version vector travels with the
+// claim: when an accepted alive claim carries one (six or more entries) all six
+// version fields of the record are rewritten, whatever the prior state - the
+// protocol verifier of the push/pull exchange reads them.
+func checkAliveVersions(c *Ctx, prop string) {
+	a := c.handlerModels()["alive"]
+	rule := "alive claim: an accepted update that carries a version vector records all six version fields, for every prior state (the push/pull protocol verifier computes the cluster's version range from them)"
+	c.Rule(rule)
+	n := 0
+	for _, ex := range a.x.Exits {
+		if ex.Seen["W:Incarnation"] == 0 {
+			continue
+		}
+		if v, has := atomU(ex.Cube, "len(c.Vsn)>=6"); has && v == "T" {
+			n++
+			nv := 0
+			for _, k := range []string{"W:PMin", "W:PMax", "W:PCur", "W:DMin", "W:DMax", "W:DCur"} {
+				if ex.Seen[k] > 0 {
+					nv++
+				}
+			}
+			c.Check(prop+"/alive/update-versions", rule, ex.Pos, nv == 6,
+				fmt.Sprintf("exit at %s accepted the claim (incarnation written) but recorded only %d of the 6 version fields {%s}", c.P.Pos(ex.Pos), nv, gea.CubeString(ex.Cube)))
+		}
+	}
+	c.Floor("accepting exits of the alive handler with a version vector", n, 1)
 }
